@@ -24,7 +24,7 @@ F_TYPES = {("int", 16, False): "INTEGER(2)", ("int", 32, False): "INTEGER(4)", (
            ("float", 128, None): "REAL(16)", ("bool", None, None): "LOGICAL(4)"}
 
 
-def gen_env(rng, arrays=True, strings=True):
+def gen_env(rng, arrays=True, strings=True, force_str_array=False):
     """DIP text + list of (name, keyword, precision, unsigned, value, unit)"""
     lines, params = [], []
     kinds = [("int", 32, False, "int"), ("int", 16, False, "int16"), ("int", 64, False, "int64"), ("int", 32, True, "uint"), ("int", 16, True, "uint16"), ("int", 64, True, "uint64"),
@@ -44,7 +44,11 @@ def gen_env(rng, arrays=True, strings=True):
             if kw == "bool":
                 return rng.choice([True, False])
             return rng.choice(["alpha", "Configuration_test", "x", "with-dash", "a_b-c"]) if shape else rng.choice(["alpha", "Configuration test", "x", "with space", "a_b-c", 'say "hi"', 'quote"inside'])
+        if kw == "str" and force_str_array:
+            shape, n = (3,), 3
         flat = [one() for _ in range(n)]
+        if kw == "str" and force_str_array:
+            flat = ["x", "alpha", "with-dash"]   # the longest item is not the lexicographically largest one
         if kw == "str" and shape:
             shape = (len(flat),) if len(shape) == 1 else ()
             flat = flat[: (shape[0] if shape else 1)]
@@ -185,7 +189,7 @@ def run(tier="quick", seed=0, contracts=None):
     work = tempfile.mkdtemp(prefix="c19-")
     try:
         for e in range(nenv):
-            text, params = gen_env(rng, arrays=True, strings=True)
+            text, params = gen_env(rng, arrays=True, strings=True, force_str_array=(e == 0))
             env = parse_text(text)
             distinct.add(text)
             if len(samples) < 2:
